@@ -198,3 +198,56 @@ func Verif_C08_Evict_VolatileLFU()    { c08EvictionLoop(constants.VolatileLFU) }
 func Verif_C08_Evict_VolatileLRU()    { c08EvictionLoop(constants.VolatileLRU) }
 func Verif_C08_Evict_AllKeysRandom()  { c08EvictionLoop(constants.AllKeysRandom) }
 func Verif_C08_Evict_VolatileRandom() { c08EvictionLoop(constants.VolatileRandom) }
+
+// Verif_C08_MultiKeyAccessCountsEveryKey: one access that names several keys (TOUCH a b c, MGET, a
+// multi-key read) records every key that exists, wherever a missing key sits in the list: under an LFU
+// policy each existing key's count goes up by exactly one, under an LRU policy each is (re)listed; the
+// number of touched keys is the number of existing ones.
+func Verif_C08_MultiKeyAccessCountsEveryKey() {
+	pol := vr.Choose("policy", 2)
+	name := []string{constants.AllKeysLFU, constants.AllKeysLRU}[pol]
+	s := c08Server(name)
+	s.config.MaxMemory = 1 << 50
+	a, b, ghost := vr.Tok("a"), vr.Tok("b"), vr.Tok("ghost")
+	vr.Assume(a != b && a != ghost && b != ghost)
+	verifPreset(s, 0, a, "va")
+	verifPreset(s, 0, b, "vb")
+	vr.Quiesce()
+	pre := 1 + vr.Choose("earlier_accesses", 2)
+	for t := 0; t < pre; t++ {
+		c08Touch(s, a)
+		c08Touch(s, b)
+	}
+	var keys []string
+	switch vr.Choose("order", 4) {
+	case 0:
+		keys = []string{ghost, a, b}
+	case 1:
+		keys = []string{a, ghost, b}
+	case 2:
+		keys = []string{a, b, ghost}
+	case 3:
+		keys = []string{a, b}
+	}
+	before := map[string]int{}
+	if pol == 0 {
+		for _, k := range []string{a, b} {
+			c, err := s.lfuCache.cache[0].GetCount(k)
+			vr.Assert(err == nil, "C08.multikey_access.listed_before")
+			before[k] = c
+		}
+	}
+	n, err := s.updateKeysInCache(verifCtx(0), keys)
+	vr.Assert(err == nil, "C08.multikey_access.noerror")
+	vr.Assert(n == 2, "C08.multikey_access.touched_count_is_the_number_of_existing_keys")
+	for _, k := range []string{a, b} {
+		if pol == 0 {
+			c, e2 := s.lfuCache.cache[0].GetCount(k)
+			vr.Assert(e2 == nil && c == before[k]+1, "C08.multikey_access.every_existing_key_counted_once")
+		} else {
+			vr.Assert(inLRU(s, k), "C08.multikey_access.every_existing_key_listed")
+		}
+	}
+	vr.Assert(!inLFU(s, ghost) && !inLRU(s, ghost), "C08.multikey_access.missing_key_not_listed")
+	vr.Reach("end")
+}
